@@ -265,7 +265,7 @@ func runC17(c C17Case, ev *Evid) (fs []Finding) {
 			return
 		}
 		get := func(req string) (string, error) {
-			resp, err := http.Get(base + req)
+			resp, err := httpClient60.Get(base + req)
 			if err != nil {
 				return "", err
 			}
@@ -323,7 +323,7 @@ func runC17(c C17Case, ev *Evid) (fs []Finding) {
 		wg.Wait()
 		for i := range reqs {
 			if errs[i] != nil {
-				add("http-error", "GET %s: %v", reqs[i], errs[i])
+				add("http-error", "GET %s (one of %d concurrent requests) failed or was not answered within 60 s: %v", reqs[i], len(reqs), errs[i])
 				return
 			}
 			seq, err := get(reqs[i])
@@ -357,6 +357,10 @@ func runC17(c C17Case, ev *Evid) (fs []Finding) {
 	}
 	return nil
 }
+
+// httpClient60: a request that is answered in milliseconds when issued alone must not hang for a minute
+// (a server that stops answering is reported as a failed request, not waited for indefinitely).
+var httpClient60 = &http.Client{Timeout: 60 * time.Second, Transport: &http.Transport{DisableKeepAlives: true}}
 
 func replaceSub(s, sub string) string {
 	out := ""
